@@ -63,6 +63,9 @@ CLAIMED.update({
     "C19": ("Hypothesis-generated lines, planes, rigid motions and line pairs in general / parallel / intersecting / coincident position; elementary-geometry oracle from the defining data",
             EXPL + "lines built by PQ, PointDir and Planes are judged on incidence, Pluecker constraint, principal point, projection, point(lambda), rigid transformation, equality, parallelism, common perpendicular, distance, plane intersection with its parameter, and plane membership, with residuals <= 1e-9 x data magnitude.",
             "reference point-line geometry in the check; predicates with a tol argument receive a data-scaled tolerance; the ^ predicate is outside the statement", "4/C19"),
+    "C15": ("exhaustive enumeration over a spec table of 127 callables x container forms x int/float x lengths 0..8 x unit / order names + Hypothesis-drawn values; oracle: identity with the 1-D array form, must-raise for wrong lengths / unknown options, deg = rad*pi/180",
+            EXPL + "every exported base function and class constructor/method with a vector, angle, unit or order argument (table checked for completeness against spatialmath.base.__all__ at start-up) is called in all five container forms (three for classes), with every wrong length 0..8, both units, all order names, aliases and misspellings, and scalar-vs-packed call forms.",
+            "the spec table and its exclusion list (pbt/props/c15_forms.py, counted in evidence); outputs compared by value and shape", "4/C15"),
 })
 
 NOT_YET = {}
